@@ -172,12 +172,19 @@ def run_driver(binary, sub, scn_path, trace_path, n_cases, timeout=900, env=None
             raise ToolError("harness error:\n" + p.stderr[-3000:])
         if p.returncode == 0:
             break
-        last = None
-        for line in p.stderr.splitlines():
-            if line.startswith("@case "):
-                last = int(line.split()[1])
-        if last is None:
-            raise ToolError("harness died before the first case (rc=%s):\n%s" % (p.returncode, p.stderr[-3000:]))
+        done, partial = _scan_part(part)
+        if not partial:
+            # the process died between cases (e.g. heap corruption detected later): attribute it to the
+            # last case that ran
+            cls = classify_death(p.returncode, p.stderr)
+            if done == 0:
+                raise ToolError("harness died before the first case (rc=%s):\n%s" % (p.returncode, p.stderr[-3000:]))
+            with open(part, "a") as f:
+                f.write(json.dumps({"ev": "exit", "rc": p.returncode, "class": cls, "stderr": p.stderr[-300:]}) + "\n")
+            crashed.append(start + done - 1)
+            start = start + done
+            continue
+        last = start + done
         # drop the incomplete case from this part, re-run it alone flushing every event
         _truncate_to_last_case_start(part)
         solo = "%s.solo%d" % (trace_path, last)
@@ -185,8 +192,10 @@ def run_driver(binary, sub, scn_path, trace_path, n_cases, timeout=900, env=None
         e2["GAH_FLUSH"] = "1"
         q = sh([binary, sub, scn_path, solo, "--from", str(last), "--count", "1"] + list(args), timeout=timeout, env=e2)
         cls = classify_death(q.returncode, q.stderr)
+        if q.returncode == 0:
+            cls = "died-in-batch-only:" + classify_death(p.returncode, p.stderr)
         with open(solo, "a") as f:
-            f.write(json.dumps({"ev": "exit", "rc": q.returncode, "class": cls, "stderr": q.stderr[-400:]}) + "\n")
+            f.write(json.dumps({"ev": "exit", "rc": q.returncode if q.returncode else p.returncode, "class": cls, "stderr": (q.stderr if q.returncode else p.stderr)[-300:]}) + "\n")
         parts.append(solo)
         crashed.append(last)
         start = last + 1
@@ -213,6 +222,20 @@ def classify_death(rc, stderr):
     if rc is not None and rc < 0:
         return "signal%d" % (-rc)
     return "exit%s" % rc
+
+
+def _scan_part(path):
+    """-> (number of complete cases, whether an incomplete case follows)"""
+    done, open_ = 0, False
+    if os.path.exists(path):
+        with open(path) as f:
+            for l in f:
+                if l.startswith('{"ev":"case_start"'):
+                    open_ = True
+                elif l.startswith('{"ev":"case_end"'):
+                    done += 1
+                    open_ = False
+    return done, open_
 
 
 def _truncate_to_last_case_start(path):
